@@ -127,6 +127,13 @@ EXPRS += [
     ("expr", "src/collections/vec.rs", "drain", ("assert", 1), "vec_drain_ordered"),
     ("expr", "src/collections/vec.rs", "drain", ("assert", 2), "vec_drain_in_range"),
     ("expr", "src/collections/vec.rs", "drain", ("field", "tail_len", 1), "vec_drain_tail_len"),
+    # Drain::drop: whether there is a tail to move back, whether it has to move, the memmove and the new length
+    ("expr", "src/collections/vec.rs", "impl:Drop for Drain:drop", ("if", 1), "vec_drain_drop_has_tail"),
+    ("expr", "src/collections/vec.rs", "impl:Drop for Drain:drop", ("if", 2), "vec_drain_drop_must_move"),
+    ("expr", "src/collections/vec.rs", "impl:Drop for Drain:drop", ("let", "src", 1), "vec_drain_drop_copy_src"),
+    ("expr", "src/collections/vec.rs", "impl:Drop for Drain:drop", ("let", "dst", 1), "vec_drain_drop_copy_dst"),
+    ("expr", "src/collections/vec.rs", "impl:Drop for Drain:drop", ("arg", "copy", 1, 2), "vec_drain_drop_copy_len"),
+    ("expr", "src/collections/vec.rs", "impl:Drop for Drain:drop", ("arg", "set_len", 1, 0), "vec_drain_drop_new_len"),
     ("expr", "src/collections/string.rs", "drain", ("let", "start", 1), "string_drain_start"),
     ("expr", "src/collections/string.rs", "drain", ("let", "end", 1), "string_drain_end"),
     # String: remove / insert_bytes / pop / truncate (`ch`, the decoded character, and `bytes`, the
@@ -218,6 +225,11 @@ FRAMES = [
     ("src/boxed.rs", "*", "box_downcast_any_send",
      "pubfndowncast<T:Any>(self)->Result<Box<'a,T>,Box<'a,dynAny+Send>>{ifself.is::<T>(){unsafe{letraw:*mut(dynAny+Send)=Box::into_raw(self);Ok(Box::from_raw(rawas*mutT))}}else{Err(self)}}"),
     # Vec: what surrounds the located expressions of insert / remove
+    ("src/collections/vec.rs", "impl:Drop for Drain:drop", "vec_drain_drop_exhausts_first", "{self.for_each(drop);ifself.tail_len>0{"),
+    ("src/collections/vec.rs", "impl:Drop for Drain:drop", "vec_drain_drop_moves",
+     "iftail!=start{letsrc=source_vec.as_ptr().add(tail);letdst=source_vec.as_mut_ptr().add(start);ptr::copy(src,dst,self.tail_len);}source_vec.set_len(start+self.tail_len);"),
+    ("src/collections/vec.rs", "drain", "vec_drain_shortens_first",
+     "self.set_len(start);"),
     ("src/collections/vec.rs", "insert", "vec_insert_grows_then_writes",
      "iflen==self.buf.cap(){self.reserve(1);}unsafe{{letp=self.as_mut_ptr().add(index);ptr::copy(p,p.offset(1),len-index);ptr::write(p,element);}self.set_len(len+1);}"),
     ("src/collections/vec.rs", "remove", "vec_remove_reads_then_closes",
@@ -806,6 +818,15 @@ def split_cmp(term):
 
 def find_fn(txt, name):
     """body of the function called `name`; `name#k` is the k-th function of that name in the file"""
+    if name.startswith("impl:"):
+        # "impl:Drop for Drain:drop": the function inside the impl block whose header contains that text
+        _, header, fn = name.split(":")
+        for m in re.finditer(r"\bimpl\b[^{;]*\{", txt):
+            if re.sub(r"\s+", " ", header) in re.sub(r"\s+", " ", m.group(0)):
+                b = m.end() - 1
+                e = matching(txt, b, "{", "}")
+                return find_fn(txt[b:e], fn)
+        return None
     want = 1
     if "#" in name:
         name, k = name.split("#")
